@@ -14,8 +14,11 @@ if "--cases" in args:
     del args[args.index("--cases"):args.index("--cases") + 2]
 props = [a for a in args if not a.startswith("--")]
 jobs = []
+only_seeded = "--only-seeded" in args
+seeded = seeded or only_seeded
 for p in sorted(glob.glob(os.path.join(VERIF, "mutants", "*", "*.patch"))):
-    jobs.append((os.path.basename(os.path.dirname(p)), p))
+    if not only_seeded:
+        jobs.append((os.path.basename(os.path.dirname(p)), p))
 if seeded:
     for m in sorted(glob.glob(os.path.join(VERIF, "seeded", "*", "meta.json"))):
         meta = json.load(open(m))
